@@ -174,6 +174,27 @@ func (g InstGen) Gen(t *rapid.T, s *Schema, depth int) any {
 			}
 		}
 		if _, ok := last.(map[string]any); ok {
+			// a member may require a property that only another member declares
+			for _, a := range s.AllOf {
+				ra := g.C.Resolve(a)
+				if ra == nil {
+					continue
+				}
+				for _, name := range ra.ExtraRequired {
+					if _, present := merged[name]; present {
+						continue
+					}
+					for _, b := range s.AllOf {
+						if rb := g.C.Resolve(b); rb != nil {
+							for _, p := range rb.Props {
+								if p.Name == name {
+									merged[name] = g.Gen(t, p.Schema, depth+1)
+								}
+							}
+						}
+					}
+				}
+			}
 			return merged
 		}
 		return last
